@@ -141,4 +141,33 @@ theorem suggestion_is_nearest_visible (P : Parser) (ci : Nat) (w : Bytes) (hne :
   simp only at h ⊢
   exact ⟨(diagnostic_names_are_the_visible_ones P ci _).mp h.1, h.2.1, h.2.2⟩
 
+/-- **A word that spells a visible command is its own nearest name** (it reaches the diagnostic only where it
+    selects nothing, e.g. behind the terminator): the distance reported for it is 0, and the name suggested has the
+    same characters. -/
+theorem a_visible_name_is_its_own_nearest (w : Bytes) (names : List Bytes) (h : w ∈ names) :
+    (closestChoice w names).2 = 0 ∧ runes (closestChoice w names).1 = runes w := by
+  have hne : names ≠ [] := by intro e; subst e; simp at h
+  obtain ⟨_, h2, h3⟩ := closest_is_minimum w names hne
+  have h0 : levenshtein w w = 0 := (lev_eq_zero_iff w w).mpr rfl
+  have hle := h3 w h
+  rw [h0] at hle
+  have hz : (closestChoice w names).2 = 0 := Nat.le_zero.mp hle
+  refine ⟨hz, ?_⟩
+  have := (lev_eq_zero_iff w (closestChoice w names).1).mp (by rw [← h2]; exact hz)
+  exact this.symm
+
+/-- … so the message for it is the suggestion of that name, never the enumeration (a name of at least one byte) -/
+theorem a_visible_name_is_suggested (s : PS) (first : Bytes) (rest : List Bytes) (h : s.retargs = first :: rest)
+    (hv : first ∈ sortedVisibleNames s.P s.cmd) (hn : (closestChoice first (sortedVisibleNames s.P s.cmd)).1 ≠ []) :
+    estimateCommand s = .flags .unknownCommand
+      (B "Unknown command `" ++ first ++ B "'" ++ B ", did you mean `" ++
+        (closestChoice first (sortedVisibleNames s.P s.cmd)).1 ++ B "'?") := by
+  have := unknown_command_message s first rest h
+  simp only at this
+  rw [this]
+  have hz := (a_visible_name_is_its_own_nearest first _ hv).1
+  have hl : (closestChoice first (sortedVisibleNames s.P s.cmd)).1.length ≠ 0 := by
+    intro e; exact hn (List.length_eq_zero_iff.mp e)
+  simp [hz, hl]
+
 end GoFlags.C20
